@@ -58,7 +58,7 @@ def build_single(kind, env, ctx, nxt):
             e = Port(env, 0, 2, False, "e_" + kind)
         st.counted = lambda: e.packets_dropped
     elif kind == "red":
-        e = REDPort(env, RATE, 2, 1, 0.5, "e_red", 3, weight_factor=0)
+        e = REDPort(env, RATE, 2, 1, 0.5, "e_red", 2, weight_factor=0)     # forced drops from 2 waiting packets on
         st.counted = lambda: e.packets_dropped
     elif kind == "wire":
         e = Wire(env, lambda: 1)
